@@ -283,6 +283,119 @@ fn gen(tier: &str, seed: u64, out: &mut dyn FnMut(String)) {
         out(format!("chain {a} expand:-1|squeeze:-1"));
         if thorough { out(format!("chain {a} atleast:3")); out(format!("chain {a} squeeze:none")); out(format!("chain {a} reshape:{}", n + 1)); out(format!("chain {a} ravel|expand:1,0|atleast:2")); }
     }
+
+    // ================================================================== robustness streams, part 3
+    // ---- (12) element layout: EVERY chain / create line above also runs on the 12-byte, 3-byte and 32-byte (not Copy) tuples and on
+    //      one of nine further element sizes (exec: `layout_types!`).  Added here: lengths around the tile edges that
+    //      64 / size_of::<T>() gives for those sizes (5, 7, 10, 12, 21, 32, 42, 63) for the copying steps, in every position
+    let tl = [4usize, 5, 6, 7, 10, 11, 12, 13, 20, 21, 22, 31, 32, 33, 42, 43, 63, 64, 65];
+    for (li, &l) in tl.iter().enumerate() {
+        for (mi, &m) in tl.iter().enumerate() {
+            if !thorough && (li + 2 * mi) % 4 != 0 { continue; }
+            out(format!("chain {} resize:{}", centred(&[l]), m));
+            out(format!("chain {} cycle_take:{}", centred(&[2, l]), 2 * l + m));
+            if l * m <= 1400 { out(format!("chain {} resize:{m},{l}|ravel|reshape:{l},{m}", centred(&[l, m]))); }
+        }
+        out(format!("chain {} ravel|expand:0,-1|squeeze:none|atleast:3", centred(&[l, 3])));
+        out(format!("chain {} resize:{}|resize:{}", centred(&[3, l]), 3 * l + 1, 3 * l - 1));
+    }
+    // ---- (13) values related in a way random data never is: constant / all-zero arrays (a "nothing to do" shortcut), and mixtures of
+    //      tags that are `==` in the bit-wise compared f64 special image without being identical (0 / 5 are -0.0 / +0.0, 0 / 8 the same
+    //      -0.0, 2 / 7 two NaNs, 5 / 13 the same +0.0) in the Thue–Morse arrangement; every step, accepted AND refused
+    let tm = |k: usize| (k.count_ones() % 2) as usize;
+    let mut vshapes: Vec<Vec<usize>> = vec![vec![1], vec![4], vec![2, 3], vec![1, 5], vec![2, 2], vec![3, 1, 3], vec![2, 3, 4], vec![1, 1, 6], vec![8, 9], vec![17, 16]];
+    if thorough { vshapes.extend(vec![vec![64, 65], vec![1, 300, 1], vec![5, 5, 5, 5], vec![1030]]); }
+    for s in &vshapes {
+        let (nd, n) = (s.len() as isize, s.iter().product::<usize>());
+        let spell_arr = |vals: Vec<i64>| format!("{}:{}", show_list(s), show_list(&vals));
+        let mut arrs = vec![spell_arr(vec![7; n]), spell_arr(vec![0; n])];
+        for (x, y) in [(0i64, 5i64), (0, 8), (2, 7), (5, 13)] { arrs.push(spell_arr((0..n).map(|k| if tm(k) == 0 { x } else { y }).collect())); }
+        let f2 = factorizations(n, 2); let f3 = factorizations(n, 3);
+        let unit = s.iter().position(|&d| d == 1);
+        for a in &arrs {
+            let mut steps: Vec<String> = vec!["ravel".into(), format!("reshape:{n}"), format!("reshape:{}", n + 1), format!("reshape:{},2", n), format!("reshape:{}|reshape:{}", show_list(&f2[f2.len() / 2]), show_list(s)),
+                format!("reshape:{}", show_list(&f3[f3.len() / 2])), format!("resize:{}", n + 3), format!("resize:2,{n}"), format!("resize:{}", n.saturating_sub(1)), "resize:0".into(), "resize:3,0".into(),
+                format!("cycle_take:{}", 2 * n + 1), format!("cycle_take:{}", n.saturating_sub(1)), "atleast:1".into(), "atleast:2".into(), "atleast:3".into(), "atleast:4".into(),
+                "expand:0".into(), "expand:-1".into(), format!("expand:{},0", nd + 1), format!("expand:{}", nd + 1), format!("expand:{}", -nd - 2), "expand:0,0".into(),
+                "squeeze:none".into(), "squeeze:0".into(), format!("squeeze:{}", nd - 1), format!("squeeze:{nd}"), "squeeze:0,0".into(),
+                format!("resize:{}|reshape:2,{n}|resize:{}", 2 * n, show_list(s)), format!("expand:1|squeeze:1|ravel|reshape:{}", show_list(s))];
+            if let Some(u) = unit { steps.push(format!("squeeze:{u}")); steps.push(format!("squeeze:{}", u as isize - nd)); steps.push(format!("squeeze:{u}|expand:{u}")); }
+            for st in steps { out(format!("chain {a} {st}")); }
+        }
+        let n_i: Vec<i64> = (0..n).map(|k| if tm(k) == 0 { 0 } else { 5 }).collect();
+        for ndmin in ["none", "0", "3", "5"] { out(format!("create {} {} {ndmin}", show_list(&vec![7i64; n]), show_list(s))); out(format!("create {} {} {ndmin}", show_list(&n_i), show_list(s))); }
+        out(format!("create {} {},2 none", show_list(&vec![7i64; n]), n));
+    }
+    // ---- (15) axis arguments at the ends of the isize range and k * 2^64 / d + c (a sum or product with them wraps modulo 2^64 into
+    //      the legal range): every one must be refused, and is directly followed by a valid call
+    for s in [vec![3usize], vec![2, 3], vec![1, 2, 1], vec![1, 1], vec![2, 1, 3, 1]] {
+        let (a, nd) = (tag(&s), s.len());
+        let mut bads: Vec<isize> = vec![isize::MAX, isize::MAX - 1, isize::MIN, isize::MIN + 1, isize::MIN + nd as isize, isize::MIN + nd as isize + 1, isize::MIN + nd as isize + 2, 1 << 62, -(1 << 62)];
+        for c in 0..=nd as isize { for d in [3isize, 4, 5, 6, 8, 12] { bads.push(((1i128 << 64) / d as i128) as isize + c); } bads.push(isize::MAX - c); bads.push(isize::MIN + (1 << 32) + c); }
+        for bad in bads {
+            out(format!("chain {a} expand:{bad}")); out(format!("chain {a} expand:0,{bad}")); out(format!("chain {a} expand:{bad},-1"));
+            out(format!("chain {a} squeeze:{bad}")); out(format!("chain {a} squeeze:{bad},0")); out(format!("chain {a} expand:0|squeeze:0"));
+        }
+    }
+    // ---- (15) target shapes whose product WRAPS modulo 2^64 onto the element count (k * d = count + j * 2^64): never of equal count,
+    //      so reshape / create must not accept them (`wrap`: any refusal — an error or an overflow panic — is accepted, `ok` is not)
+    for s in [vec![0usize], vec![6], vec![2, 3], vec![1], vec![4, 0], vec![12], vec![5, 7]] {
+        let (a, n) = (tag(&s), s.iter().product::<usize>() as u128);
+        let mut tg: Vec<Vec<usize>> = vec![];
+        for d in [2u128, 3, 4, 5, 6, 7, 8, 12, 16, 1 << 16, 1 << 32, (1 << 32) + 1, 1 << 63] { for j in 1..d.min(8) {
+            let tot = (j << 64) + n;
+            if tot % d == 0 && tot / d < (1u128 << 64) { let k = (tot / d) as usize; tg.push(vec![k, d as usize]); tg.push(vec![d as usize, k]); tg.push(vec![1, k, 1, d as usize]); break; }
+        } }
+        if n == 0 { tg.extend(vec![vec![1 << 32, 1 << 32], vec![1 << 62, 2, 2], vec![1 << 16, 1 << 16, 1 << 16, 1 << 16], vec![1 << 63, 2]]); }
+        for (ti, t) in tg.iter().enumerate() {
+            out(format!("wrap {a} reshape:{}", show_list(t)));
+            if thorough || ti % 3 == 0 { out(format!("wrap {a} ravel|reshape:{}|ravel", show_list(t))); out(format!("wrapcreate {a} {} none", show_list(t))); out(format!("wrapcreate {a} {} {}", show_list(t), t.len() + 2)); }
+            out(format!("chain {a} ravel"));
+        }
+    }
+    // ---- (11) giant: more than 2^20 elements (a blocked / tiled / bulk-copy path that only starts there and has a wrong tail or block
+    //      start; `as f32` arithmetic on a count, exact up to 2^24 -> `giant8`).  Arrays are named `iota:SHAPE` and built by the harness.
+    let mut giants = giant_shapes();
+    giants.extend(vec![vec![1024, 1024], vec![1, 1_048_577], vec![1_048_583, 1], vec![1, 1025, 1, 1031], vec![128, 65, 129], vec![2, 2, 2, 131_073]]);
+    if thorough { giants.extend(vec![vec![1_048_577], vec![33, 32, 31, 33], vec![3, 5, 7, 11, 13, 73], vec![2048, 1023], vec![1, 1, 2_000_003]]); }
+    for (gi, s) in giants.iter().enumerate() {
+        let (a, n, nd) = (format!("iota:{}", show_list(s)), s.iter().product::<usize>(), s.len() as isize);
+        let f2 = factorizations(n, 2); let f3 = factorizations(n, 3);
+        let other = &giants[(gi + 3) % giants.len()]; let other2 = &giants[(gi + 7) % giants.len()];
+        let mut calls: Vec<String> = vec![
+            format!("ravel|reshape:{}", show_list(s)),
+            format!("reshape:{}|reshape:{}", show_list(&f2[f2.len() / 2]), show_list(s)),
+            format!("resize:{}", show_list(other)),
+            format!("cycle_take:{}", n + 5),
+            format!("expand:1|squeeze:1"),
+            format!("resize:{}", [n - 3, (1 << 20) + 1, 1 << 20, 7, 1000][gi % 5]),
+            format!("reshape:{}|expand:-1,0|squeeze:0,-1|ravel", show_list(&f3[(f3.len() * 2) / 3])),
+            "atleast:3".into(),
+            format!("resize:{}|ravel|resize:{}", show_list(other2), show_list(s)),
+            format!("cycle_take:{}", [(1usize << 20) + 1, 1 << 20, 2_100_001, 3][gi % 4]),
+            "squeeze:none".into(),
+            format!("expand:{},0,{}|squeeze:none", nd + 2, -2),
+            format!("reshape:{}", n + 1), "ravel".into(),
+            format!("squeeze:{}", if s[0] == 1 { 1 } else { 0 }), "expand:0|atleast:2".into(),
+            format!("resize:2,{n}|reshape:{}|resize:{}", 2 * n, show_list(s)),
+        ];
+        if !thorough { let k = calls.len(); calls = if gi % 2 == 0 { vec![calls[gi % k].clone(), calls[(gi * 5 + 2) % k].clone()] } else { vec![calls[(gi * 5 + 2) % k].clone()] }; if gi % 5 == 0 { calls.push(format!("reshape:{}", n + 1)); calls.push("ravel".into()); } }
+        // `giantw`: additionally on the 32-byte not-Copy tuple (a million Strings: two shapes in quick, every fourth call in thorough)
+        for (ci, c) in calls.iter().enumerate() { let w = n <= 1_300_000 && if thorough { (gi + ci) % 4 == 0 } else { ci == 0 && (gi == 3 || gi == 12) }; out(format!("{} {a} {c}", if w { "giantw" } else { "giant" })); }
+    }
+    // giant TARGETS from small sources (lengths that do and do not divide 2^20, 64, the block sizes)
+    let small_src: Vec<Vec<usize>> = vec![vec![7], vec![3, 5], vec![1000], vec![255], vec![64], vec![1], vec![65536], vec![2, 3, 7], vec![1 << 20], vec![1031, 1013]];
+    let giant_tgt: Vec<Vec<usize>> = vec![vec![1031, 1033], vec![2, 3, 174_763], vec![(1 << 20) + 5], vec![1024, 1024], vec![17, 65536], vec![1 << 20 | 1], vec![3, 400_001], vec![2_097_153], vec![65, 129, 127], vec![1 << 20]];
+    for (si, src) in small_src.iter().enumerate() {
+        let per = if thorough { giant_tgt.len() } else { 1 };
+        for q in 0..per { if thorough || si != 7 { out(format!("{} iota:{} resize:{}", if si == 4 && q == 0 { "giantw" } else { "giant" }, show_list(src), show_list(&giant_tgt[(si + q) % giant_tgt.len()]))); } }
+        if thorough || si % 3 == 0 { out(format!("giant iota:{} cycle_take:{}", show_list(src), [(1usize << 20) + 5, 2_000_003, 1 << 20][si % 3])); }
+    }
+    for (s, nd) in [(vec![1031usize, 1033], "none"), (vec![2, 131_073, 4], "5"), (vec![(1 << 20) + 5], "3"), (vec![1024, 1024], "2")] { if thorough || nd != "2" { out(format!("gcreate iota:{} {nd}", show_list(&s))); } }
+    // counts above 2^24 (u8 elements): a count or length that went through f32 is no longer exact
+    let g8: Vec<(&str, &str)> = vec![("3", "resize:16777217"), ("16777219", "ravel|reshape:1,16777219|squeeze:0"), ("7", "cycle_take:16777221"), ("16777217", "resize:5,3"),
+        ("4097,4099", "reshape:4099,4097|expand:1|atleast:3"), ("16777217", "cycle_take:16777225"), ("5,3", "resize:4097,4099"), ("16777217", "reshape:16777216"), ("33554433", "ravel|expand:0"), ("2", "resize:33554435")];
+    for (gi, (a, st)) in g8.iter().enumerate() { if thorough || gi < 5 { out(format!("giant8 iota:{a} {st}")); } }
     out("audit".into());
 }
 
@@ -359,8 +472,12 @@ fn image_of<T: ArrayElement>(label: &str, recv: &str, got: &Out<T>, canon: &Out<
 
 /// the same chain on the image of the tag array in element type `T`, both receivers
 fn image<T: ArrayElement>(label: &str, shape: &[usize], tags: &[i64], steps: &[Step], canon: &Out<i64>, from: impl Fn(i64) -> T, same: impl Fn(&T, &T) -> bool) -> Option<String> {
+    image_on(&[true, false], label, shape, tags, steps, canon, from, same)
+}
+/// … on the listed receivers only (`true` = the `Ok(array)` receiver)
+fn image_on<T: ArrayElement>(recs: &[bool], label: &str, shape: &[usize], tags: &[i64], steps: &[Step], canon: &Out<i64>, from: impl Fn(i64) -> T, same: impl Fn(&T, &T) -> bool) -> Option<String> {
     let a: Array<T> = Array::new(tags.iter().map(|&t| from(t)).collect(), shape.to_vec()).expect("harness: array literal");
-    for chained in [true, false] {
+    for &chained in recs {
         let recv = if chained { "Ok(array) receiver" } else { "plain receiver" };
         if let Some(d) = image_of(label, recv, &run(&a, steps, chained), canon, &from, &same) { return Some(d); }
     }
@@ -372,6 +489,10 @@ fn image_create<T: ArrayElement>(label: &str, el: &[i64], sh: &[usize], nd: Opti
     let elems: Vec<T> = el.iter().map(|&t| from(t)).collect();
     let got: Out<T> = catch_unwind(AssertUnwindSafe(|| Array::create(elems.clone(), sh.to_vec(), nd))).map_err(|_| ());
     image_of(label, "Array::create", &got, canon, &from, &same)
+}
+
+fn image_create_on<T: ArrayElement>(_recs: &[bool], label: &str, el: &[i64], sh: &[usize], nd: Option<usize>, canon: &Out<i64>, from: impl Fn(i64) -> T, same: impl Fn(&T, &T) -> bool) -> Option<String> {
+    image_create(label, el, sh, nd, canon, from, same)
 }
 
 /// f64 value classes by tag: -0.0, +0.0, NaN, the smallest subnormal, infinities, ordinary values
@@ -394,8 +515,93 @@ macro_rules! every_type {
     };
 }
 
+// part 3 (12) — element LAYOUT: 12-byte and 3-byte tuples (tiles of 64 / size_of::<T>() elements are not powers of two), a 32-byte
+// not-Copy tuple (paths chosen by size_of::<T>() > 24), and one of nine further sizes (2, 5, 6, 9, 16, 20, 36, 40, 48 bytes) per case
+type L2 = i16;
+type L5 = Tuple2<T3b, Tuple2<u8, u8>>;
+type L6 = Tuple3<i16, i16, i16>;
+type L9 = Tuple3<T3b, T3b, T3b>;
+type L16 = Tuple2<i64, u64>;
+type L20 = Tuple2<T3, Tuple2<i32, i32>>;
+type L36 = Tuple3<T3, T3, T3>;
+type L40 = Tuple2<String, Tuple2<i64, i64>>;
+type L48 = Tuple2<String, String>;
+fn tag_l2(t: i64) -> L2 { (t as i16) ^ 0x2AAA }
+fn tag_l5(t: i64) -> L5 { Tuple2(tag_t3b(t), Tuple2(tag_u8(t + 7), tag_u8(3 * t))) }
+fn tag_l6(t: i64) -> L6 { Tuple3(t as i16, (t as i16).wrapping_neg(), (t as i16) ^ 0x155) }
+fn tag_l9(t: i64) -> L9 { Tuple3(tag_t3b(t), tag_t3b(t + 1), tag_t3b(2 * t)) }
+fn tag_l16(t: i64) -> L16 { Tuple2(t, u64::MAX - (t.rem_euclid(1 << 40) as u64)) }
+fn tag_l20(t: i64) -> L20 { Tuple2(tag_t3(t), Tuple2(t as i32, !(t as i32))) }
+fn tag_l36(t: i64) -> L36 { Tuple3(tag_t3(t), tag_t3(t + 1), tag_t3(-t)) }
+fn tag_l40(t: i64) -> L40 { Tuple2(format!("w{t}"), Tuple2(t, -t)) }
+fn tag_l48(t: i64) -> L48 { Tuple2(format!("a{t}"), format!("{t}b")) }
+fn fnv(s: &str) -> u64 { s.bytes().fold(0xcbf29ce484222325u64, |h, b| (h ^ b as u64).wrapping_mul(0x100000001b3)) }
+
+/// run `$call(receivers, label, …, from, same)` on the three odd-layout types of lib.rs and on one of the nine further sizes chosen by
+/// `$pick`: the 12-byte tuple on both receivers, the others on one receiver (alternating with `$pick`); `$wide` = also the not-Copy ones
+macro_rules! layout_types {
+    ($call:ident, $pick:expr, $wide:expr, $($pre:expr),*) => {{
+        let both: &[bool] = &[true, false];
+        let one: &[bool] = if ($pick >> 7) % 2 == 0 { &[true] } else { &[false] };
+        let other: &[bool] = if ($pick >> 7) % 2 == 0 { &[false] } else { &[true] };
+        let wide: bool = $wide;
+        None::<String>.or_else(|| $call(both, "Tuple3<i32,i32,i32> (12 bytes)", $($pre),*, tag_t3, |x: &T3, y: &T3| x == y))
+            .or_else(|| $call(one, "Tuple3<u8,u8,u8> (3 bytes)", $($pre),*, tag_t3b, |x: &T3b, y: &T3b| x == y))
+            .or_else(|| if wide { $call(other, "Tuple2<String,i32> (32 bytes, not Copy)", $($pre),*, tag_tw, |x: &TW, y: &TW| x == y) } else { None })
+            .or_else(|| match ($pick % 9, wide) {
+                (0, _) => $call(one, "i16 (2 bytes)", $($pre),*, tag_l2, |x: &L2, y: &L2| x == y),
+                (1, _) => $call(one, "Tuple2<Tuple3<u8,u8,u8>,Tuple2<u8,u8>> (5 bytes)", $($pre),*, tag_l5, |x: &L5, y: &L5| x == y),
+                (2, _) => $call(one, "Tuple3<i16,i16,i16> (6 bytes)", $($pre),*, tag_l6, |x: &L6, y: &L6| x == y),
+                (3, _) => $call(one, "Tuple3 of three Tuple3<u8,u8,u8> (9 bytes)", $($pre),*, tag_l9, |x: &L9, y: &L9| x == y),
+                (4, _) => $call(one, "Tuple2<i64,u64> (16 bytes)", $($pre),*, tag_l16, |x: &L16, y: &L16| x == y),
+                (5, _) => $call(one, "Tuple2<Tuple3<i32,i32,i32>,Tuple2<i32,i32>> (20 bytes)", $($pre),*, tag_l20, |x: &L20, y: &L20| x == y),
+                (6, _) | (7, false) => $call(one, "Tuple3 of three Tuple3<i32,i32,i32> (36 bytes)", $($pre),*, tag_l36, |x: &L36, y: &L36| x == y),
+                (7, true) => $call(one, "Tuple2<String,Tuple2<i64,i64>> (40 bytes, not Copy)", $($pre),*, tag_l40, |x: &L40, y: &L40| x == y),
+                (_, true) => $call(one, "Tuple2<String,String> (48 bytes, not Copy)", $($pre),*, tag_l48, |x: &L48, y: &L48| x == y),
+                (_, false) => $call(one, "Tuple2<i64,u64> (16 bytes)", $($pre),*, tag_l16, |x: &L16, y: &L16| x == y),
+            })
+            .map(|d: String| d.replacen("TYPE-DIVERGENCE", "LAYOUT-DIVERGENCE", 1))
+    }};
+}
+
 // ------------------------------------------------------------------------------------------------ native reference
 
+/// `normalize_axis` as the crate's arithmetic does it: a still-negative sum is out of range (`None`)
+fn norm_ax(ax: isize, add: usize) -> Option<usize> { if ax >= 0 { Some(ax as usize) } else { let v = ax as i128 + add as i128; if v < 0 { None } else { Some(v as usize) } } }
+/// harness-native reference of the result SHAPE of atleast / expand_dims / squeeze, written from their documented meaning
+/// (part 3; validated against the model on every chain of the run, like the element formulas below). `None` = refused
+fn native_shape(cur: &[usize], st: &Step) -> Option<Vec<usize>> {
+    let nd = cur.len();
+    match st {
+        Step::Atleast(n) => match (*n, nd) {
+            (0, _) | (1, _) => Some(cur.to_vec()),
+            (2, 0) => Some(vec![1, 1]), (2, 1) => Some(vec![1, cur[0]]),
+            (3, 0) => Some(vec![1, 1, 1]), (3, 1) => Some(vec![1, cur[0], 1]), (3, 2) => Some(vec![cur[0], cur[1], 1]),
+            (2, _) | (3, _) => Some(cur.to_vec()),
+            _ => None,
+        },
+        Step::Expand(ax) => {
+            // positions are positions of the RESULT (rank nd + k), inserted in ascending order
+            let r = nd + ax.len();
+            let mut pos: Vec<usize> = vec![];
+            for &a in ax { pos.push(norm_ax(a, r)?); }
+            pos.sort();
+            let mut out = cur.to_vec();
+            for (i, &p) in pos.iter().enumerate() { if p > nd + i { return None; } }
+            for &p in &pos { out.insert(p, 1); }
+            Some(out)
+        }
+        Step::Squeeze(None) => Some(cur.iter().copied().filter(|&d| d != 1).collect()),
+        Step::Squeeze(Some(ax)) => {
+            let mut pos: Vec<usize> = vec![];
+            for &a in ax { let p = norm_ax(a, nd)?; if p >= nd || pos.contains(&p) || cur[p] != 1 { return None; } pos.push(p); }
+            Some((0..nd).filter(|k| !pos.contains(k)).map(|k| cur[k]).collect())
+        }
+        _ => None,
+    }
+}
+/// overflow-free product (a target whose true product does not fit 64 bits never equals a count)
+fn product(t: &[usize]) -> Option<usize> { t.iter().try_fold(1usize, |a, &d| a.checked_mul(d)) }
 /// harness-native reference for the four steps whose meaning is a one-line formula: resize (`out[i] = in[i mod len]`, then the target
 /// shape), cycle_take (the same, flat), reshape (same elements, the count must fit), ravel.  `None` = the chain has another step.
 fn native_chain(shape: &[usize], tags: &[i64], steps: &[Step]) -> Option<Result<(Vec<usize>, Vec<i64>), ()>> {
@@ -404,17 +610,43 @@ fn native_chain(shape: &[usize], tags: &[i64], steps: &[Step]) -> Option<Result<
     for st in steps {
         cur = match st {
             Step::Ravel => (vec![cur.1.len()], cur.1),
-            Step::Reshape(t) => { if t.iter().product::<usize>() != cur.1.len() { return Some(Err(())); } (t.clone(), cur.1) }
-            Step::Resize(t) => { let e = cycle(&cur.1, t.iter().product()); if t.iter().product::<usize>() != e.len() { return Some(Err(())); } (t.clone(), e) }
+            Step::Reshape(t) => { if product(t) != Some(cur.1.len()) { return Some(Err(())); } (t.clone(), cur.1) }
+            Step::Resize(t) => { let Some(n) = product(t) else { return Some(Err(())); }; let e = cycle(&cur.1, n); if n != e.len() { return Some(Err(())); } (t.clone(), e) }
             Step::CycleTake(n) => { let e = cycle(&cur.1, *n); (vec![e.len()], e) }
             _ => return None,
         };
     }
     Some(Ok(cur))
 }
+/// part 3 — the reference as a PLAN that needs no memory: the result shape, the element count, and the list of source lengths the flat
+/// position is reduced by (`result[p] = source[(..((p mod m_k) mod m_k-1)..) mod m_1]`); covers all seven steps.  Validated against the
+/// model's full answer on every `chain` case of the run, then used alone for the `giant` cases.  `Err(())` = the chain is refused.
+struct Plan { shape: Vec<usize>, count: usize, moduli: Vec<usize> }
+impl Plan { fn at(&self, p: usize) -> usize { self.moduli.iter().rev().fold(p, |q, &m| q % m) } }
+fn native_plan(shape: &[usize], n0: usize, steps: &[Step]) -> Result<Plan, ()> {
+    let mut pl = Plan { shape: shape.to_vec(), count: n0, moduli: vec![] };
+    for st in steps {
+        match st {
+            Step::Ravel => pl.shape = vec![pl.count],
+            Step::Reshape(t) => { if product(t) != Some(pl.count) { return Err(()); } pl.shape = t.clone(); }
+            Step::Resize(t) => { let n = product(t).ok_or(())?; if pl.count == 0 { if n != 0 { return Err(()); } } else { pl.moduli.push(pl.count); pl.count = n; } pl.shape = t.clone(); }
+            Step::CycleTake(n) => { if pl.count != 0 { pl.moduli.push(pl.count); pl.count = *n; } pl.shape = vec![pl.count]; }
+            _ => pl.shape = native_shape(&pl.shape, st).ok_or(())?,
+        }
+    }
+    Ok(pl)
+}
+/// `Array::create`: the count must fit the shape; the shape is left-padded with ones to rank `ndmin`
+fn native_create(n: usize, sh: &[usize], nd: Option<usize>) -> Result<Vec<usize>, ()> {
+    if product(sh) != Some(n) { return Err(()); }
+    let mut out = vec![1; nd.unwrap_or(0).saturating_sub(sh.len())]; out.extend_from_slice(sh); Ok(out)
+}
 fn native_text(r: &Result<(Vec<usize>, Vec<i64>), ()>) -> String { match r { Ok((s, e)) => format!("ok {}:{}", show_list(s), show_list(e)), Err(()) => "err".to_string() } }
 static ORACLE_VALIDATIONS: std::sync::atomic::AtomicUsize = std::sync::atomic::AtomicUsize::new(0);
 static NATIVE_ONLY: std::sync::atomic::AtomicUsize = std::sync::atomic::AtomicUsize::new(0);
+static SHAPE_VALIDATIONS: std::sync::atomic::AtomicUsize = std::sync::atomic::AtomicUsize::new(0);
+static CREATE_VALIDATIONS: std::sync::atomic::AtomicUsize = std::sync::atomic::AtomicUsize::new(0);
+static GIANT_ONLY: std::sync::atomic::AtomicUsize = std::sync::atomic::AtomicUsize::new(0);
 
 // ------------------------------------------------------------------------------------------------ executor
 
@@ -441,8 +673,41 @@ fn observe(shape: &[usize], tags: &[i64], steps: &[Step], step_text: &str, all_t
         None::<String>.or_else(|| image("u8", shape, tags, steps, &canon, tag_u8, |x: &u8, y: &u8| x == y))
             .or_else(|| image("f64 (tag 0 = -0.0)", shape, tags, steps, &canon, tag_f64z, |x: &f64, y: &f64| x.to_bits() == y.to_bits()))
             .or_else(|| image("String", shape, tags, steps, &canon, |t: i64| t.to_string(), |x: &String, y: &String| x == y)) });
+    // part 3 (12): the odd-layout element types (every chain; the not-Copy ones up to 3000 elements, or when the answer is short)
+    let pick = fnv(step_text).wrapping_add(tags.len() as u64);
+    let out_len = match &canon { Ok(Ok(g)) => g.get_elements().map_or(0, |e| e.len()), _ => 0 };
+    let div = div.or_else(|| layout_types!(image_on, pick, all_types && tags.len() <= 3000 && out_len <= 3000, shape, tags, steps, &canon));
     match div { Some(d) => format!("{d}; i64 run: {}", truncate(&obs, 300)), None => obs }
 }
+/// compare a giant result IN PLACE with the native plan (shape, count, every element `from(plan.at(p))`); never formats the array.
+/// `Some((observed, detail))` = disagreement, with the first differing flat position
+fn giant_judge<T: ArrayElement>(label: &str, got: &Out<T>, plan: &Result<Plan, ()>, from: &impl Fn(i64) -> T, same: &impl Fn(&T, &T) -> bool) -> Option<(String, String)> {
+    match (got, plan) {
+        (Err(()), Err(())) => None, // a panic where the reference refuses: not an `ok` (the small cases compare the class with the model)
+        (Err(()), Ok(pl)) => Some(("panic".into(), format!("{label}: the call panicked; the native plan says ok with shape {} ({} elements)", show_list(&pl.shape), pl.count))),
+        (Ok(Err(_)), Err(())) => None,
+        (Ok(Err(e)), Ok(pl)) => Some((format!("err {}", err_name(e)), format!("{label}: refused; the native plan says ok with shape {} ({} elements)", show_list(&pl.shape), pl.count))),
+        (Ok(Ok(g)), Err(())) => Some((format!("ok shape {}", show_list(&g.get_shape().unwrap())), format!("{label}: accepted; the native plan says the call must be refused"))),
+        (Ok(Ok(g)), Ok(pl)) => {
+            let (gs, ge) = (g.get_shape().unwrap(), g.get_elements().unwrap());
+            let head = format!("ok shape {} with {} elements", show_list(&gs), ge.len());
+            if gs != pl.shape { return Some((head, format!("{label}: the native plan says shape {}", show_list(&pl.shape)))); }
+            if ge.len() != pl.count { return Some((head, format!("{label}: the native plan says {} elements", pl.count))); }
+            if !consistent(g) { return Some((head, format!("{label}: inconsistent array (len / ndim / is_empty disagree with the data)"))); }
+            for p in 0..ge.len() { let want = from(pl.at(p) as i64); if !same(&ge[p], &want) {
+                return Some((format!("{head}; flat position {p} holds {:?}", ge[p]), format!("{label}: first difference at flat position {p} of {}: expected {:?} (= source position {}), found {:?}", ge.len(), want, pl.at(p), ge[p]))); } }
+            None
+        }
+    }
+}
+/// build the giant array with flat element k = `from(k)`, run the chain, judge in place
+fn giant_check<T: ArrayElement>(label: &str, shape: &[usize], n: usize, steps: &[Step], chained: bool, plan: &Result<Plan, ()>, from: impl Fn(i64) -> T, same: impl Fn(&T, &T) -> bool) -> Option<(String, String)> {
+    let a: Array<T> = Array::new((0..n as i64).map(&from).collect(), shape.to_vec()).expect("harness: giant array");
+    let got = run(&a, steps, chained);
+    drop(a);
+    giant_judge(label, &got, plan, &from, &same)
+}
+
 thread_local! {
     /// A-B-A across case lines: the previous chain and its answer
     static PREV: std::cell::RefCell<Option<(String, Vec<usize>, Vec<i64>, Vec<Step>, String)>> = const { std::cell::RefCell::new(None) };
@@ -471,6 +736,18 @@ fn exec(op: &str, args: &[&str], expected: &str) -> Option<Verdict> {
                 if !ok { return mismatch(format!("ORACLE-DIVERGENCE native reference `{}`", truncate(&native_text(&nat), 300)), format!("the harness-native reference disagrees with the model, which says `{}`", truncate(expected, 300))); }
                 ORACLE_VALIDATIONS.fetch_add(1, std::sync::atomic::Ordering::Relaxed);
             }
+            // part 3: the memory-free PLAN (all seven steps; the only judge of the giant cases) against the model's full answer
+            {
+                let plan = native_plan(&shape, tags.len(), &steps);
+                let ok = match (class_of(expected), &plan) {
+                    ("ok", Ok(pl)) => format!("ok {}:{}", show_list(&pl.shape), show_list(&(0..pl.count).map(|q| tags[pl.at(q)]).collect::<Vec<_>>())) == expected,
+                    ("err", Err(())) => true,
+                    ("ok", Err(())) | ("err", Ok(_)) => false,
+                    _ => true,
+                };
+                if !ok { return mismatch(format!("ORACLE-DIVERGENCE native plan: {}", match &plan { Ok(pl) => format!("shape {} count {} moduli {:?}", show_list(&pl.shape), pl.count, pl.moduli), Err(()) => "refused".into() }), format!("the harness-native plan (shape rules of atleast / expand_dims / squeeze, result[p] = source[p mod len]) disagrees with the model, which says `{}`", truncate(expected, 300))); }
+                SHAPE_VALIDATIONS.fetch_add(1, std::sync::atomic::Ordering::Relaxed);
+            }
             let n = tags.len();
             let v = compare_default(observe(&shape, &tags, &steps, args[1], n <= 20000 && expected.len() < 200_000), expected);
             if let Verdict::Mismatch { .. } = v { return Some(v); }
@@ -486,6 +763,23 @@ fn exec(op: &str, args: &[&str], expected: &str) -> Option<Verdict> {
                 }
             }
             Some(v)
+        }
+        // wrap ARR steps / wrapcreate ARR shape ndmin — part 3 (15): a target whose product wraps modulo 2^64 onto the element count.  The
+        // model refuses; the crate must not answer `ok` (an overflow panic of the checked build is a refusal as well: outcome left open)
+        "wrap" | "wrapcreate" => {
+            let obs = if op == "wrap" {
+                if args.len() != 2 { return None; }
+                let (a, steps) = (parse_arr_i64(args[0]), parse_chain(args[1])?);
+                let (c, p) = (text(&run(&a, &steps, true)), text(&run(&a, &steps, false)));
+                if class_of(&c) != class_of(&p) { return mismatch(format!("RECEIVER-DIVERGENCE plain receiver `{}`, Ok(array) receiver `{}`", truncate(&p, 200), truncate(&c, 200)), "the two receivers must agree".into()); }
+                c
+            } else {
+                if args.len() != 3 { return None; }
+                let (el, sh, nd) = (parse_arr_raw(args[0]).1, parse_usize_list(args[1]), parse_opt::<usize>(args[2]));
+                text(&catch_unwind(AssertUnwindSafe(|| Array::create(el.clone(), sh.clone(), nd))).map_err(|_| ()))
+            };
+            if class_of(expected) != "err" { return Some(compare_default(obs, expected)); }
+            Some(match class_of(&obs) { "err" => Verdict::Match(obs), "panic" => Verdict::Open(obs), _ => Verdict::Mismatch { observed: truncate(&obs, 300), detail: format!("a target shape whose product only equals the element count modulo 2^64 was accepted; the model says `{expected}`") } })
         }
         // hchain ARR steps: resize / cycle_take from a huge source, judged by the native reference alone
         "hchain" => {
@@ -525,18 +819,79 @@ fn exec(op: &str, args: &[&str], expected: &str) -> Option<Verdict> {
             }
             Some(Verdict::Match(truncate(expected, 400)))
         }
+        // part 3 (11): giant iota:SHAPE steps — more than 2^20 elements (giant8: more than 2^24, u8 only).  The array is built here from
+        // the shape, the expected result is the native PLAN (validated against the model on every `chain` line), compared IN PLACE.
+        "giant" | "giant8" | "giantw" => {
+            if args.len() != 2 { return None; }
+            if expected != "ok native" { return Some(compare_default("harness: giant expects the driver to answer `ok native`".into(), expected)); }
+            let shape = parse_usize_list(args[0].strip_prefix("iota:")?);
+            let n: usize = shape.iter().product();
+            let steps = parse_chain(args[1])?;
+            let plan = native_plan(&shape, n, &steps);
+            GIANT_ONLY.fetch_add(1, std::sync::atomic::Ordering::Relaxed);
+            let h = fnv(&format!("{} {}", args[0], args[1]));
+            let mut ran = vec![];
+            macro_rules! go { ($label:expr, $chained:expr, $from:expr, $same:expr) => {{
+                if let Some((o, d)) = giant_check($label, &shape, n, &steps, $chained, &plan, $from, $same) { return mismatch(o, d); }
+                ran.push($label);
+            }}; }
+            if op == "giant8" {
+                go!(if h % 2 == 0 { "u8 image, Ok(array) receiver" } else { "u8 image, plain receiver" }, h % 2 == 0, tag_u8, |x: &u8, y: &u8| x == y);
+            } else {
+                go!("i64 tags, Ok(array) receiver", true, |t: i64| t, |x: &i64, y: &i64| x == y);
+                go!("i64 tags, plain receiver", false, |t: i64| t, |x: &i64, y: &i64| x == y);
+                go!("u8 image, Ok(array) receiver", true, tag_u8, |x: &u8, y: &u8| x == y);
+                match h % 3 {
+                    0 => go!("Tuple3<i32,i32,i32> (12 bytes) image, plain receiver", false, tag_t3, |x: &T3, y: &T3| x == y),
+                    1 => go!("f64 image (tag 0 = -0.0, bit-wise), plain receiver", false, tag_f64z, |x: &f64, y: &f64| x.to_bits() == y.to_bits()),
+                    _ => go!("Tuple3<u8,u8,u8> (3 bytes) image, Ok(array) receiver", true, tag_t3b, |x: &T3b, y: &T3b| x == y),
+                }
+                if op == "giantw" { go!("Tuple2<String,i32> (32 bytes, not Copy) image, plain receiver", false, tag_tw, |x: &TW, y: &TW| x == y); }
+            }
+            Some(Verdict::Match(match &plan {
+                Ok(pl) => format!("ok shape {} ({} elements, every one equal in place to the native plan; runs: {})", show_list(&pl.shape), pl.count, ran.join(" / ")),
+                Err(()) => format!("err (refused, as the native plan says; runs: {})", ran.join(" / ")) }))
+        }
+        // gcreate iota:SHAPE ndmin — Array::create on more than 2^20 elements
+        "gcreate" => {
+            if args.len() != 2 { return None; }
+            if expected != "ok native" { return Some(compare_default("harness: gcreate expects the driver to answer `ok native`".into(), expected)); }
+            let shape = parse_usize_list(args[0].strip_prefix("iota:")?);
+            let n: usize = shape.iter().product();
+            let nd: Option<usize> = parse_opt(args[1]);
+            let plan = native_create(n, &shape, nd).map(|sh| Plan { shape: sh, count: n, moduli: vec![] });
+            GIANT_ONLY.fetch_add(1, std::sync::atomic::Ordering::Relaxed);
+            fn one<T: ArrayElement>(label: &str, shape: &[usize], n: usize, nd: Option<usize>, plan: &Result<Plan, ()>, from: impl Fn(i64) -> T, same: impl Fn(&T, &T) -> bool) -> Option<(String, String)> {
+                let elems: Vec<T> = (0..n as i64).map(&from).collect();
+                let got: Out<T> = catch_unwind(AssertUnwindSafe(|| Array::create(elems, shape.to_vec(), nd))).map_err(|_| ());
+                giant_judge(label, &got, plan, &from, &same)
+            }
+            if let Some((o, d)) = one("i64 tags", &shape, n, nd, &plan, |t: i64| t, |x: &i64, y: &i64| x == y) { return mismatch(o, d); }
+            if let Some((o, d)) = one("u8 image", &shape, n, nd, &plan, tag_u8, |x: &u8, y: &u8| x == y) { return mismatch(o, d); }
+            if let Some((o, d)) = one("Tuple3<i32,i32,i32> (12 bytes) image", &shape, n, nd, &plan, tag_t3, |x: &T3, y: &T3| x == y) { return mismatch(o, d); }
+            Some(Verdict::Match(match &plan { Ok(pl) => format!("ok shape {} ({} elements equal in place; i64, u8, 12-byte tuple)", show_list(&pl.shape), pl.count), Err(()) => "err".into() }))
+        }
         "audit" => {
-            let (v, h) = (ORACLE_VALIDATIONS.load(std::sync::atomic::Ordering::Relaxed), NATIVE_ONLY.load(std::sync::atomic::Ordering::Relaxed));
-            let t = format!("ok audit: native resize/cycle_take/reshape/ravel reference validated against the model on {v} chains of this run; {h} huge chains judged by it alone");
+            let ld = |c: &std::sync::atomic::AtomicUsize| c.load(std::sync::atomic::Ordering::Relaxed);
+            let (v, h, sv, cv, g) = (ld(&ORACLE_VALIDATIONS), ld(&NATIVE_ONLY), ld(&SHAPE_VALIDATIONS), ld(&CREATE_VALIDATIONS), ld(&GIANT_ONLY));
+            let t = format!("ok audit: native resize/cycle_take/reshape/ravel reference validated against the model on {v} chains of this run; {h} huge chains judged by it alone; native plan (all seven steps) validated on {sv} chains and native create on {cv} cases; {g} giant cases (> 2^20 elements) judged by them alone");
             if expected != "ok audit" { return Some(compare_default(t, expected)); }
-            if h > 0 && v < 1000 { mismatch(t, "the native reference was used without having been validated against the model on at least 1000 smaller cases".into()) } else { Some(Verdict::Match(t)) }
+            if h > 0 && v < 1000 { mismatch(t, "the native reference was used without having been validated against the model on at least 1000 smaller cases".into()) }
+            else if g > 0 && (sv < 5000 || cv < 100) { mismatch(t, "the native plan / create reference judged giant cases without having been validated against the model on at least 5000 chains / 100 create cases".into()) }
+            else { Some(Verdict::Match(t)) }
         }
         "create" => {
             let el = if args[0].starts_with('i') { parse_arr_raw(args[0]).1 } else { parse_i64_list(args[0]) }; let sh = parse_usize_list(args[1]); let nd: Option<usize> = parse_opt(args[2]);
             let canon: Out<i64> = catch_unwind(AssertUnwindSafe(|| Array::create(el.clone(), sh.clone(), nd))).map_err(|_| ());
             let obs = text(&canon);
             if let Verdict::Mismatch { observed, detail } = compare_default(obs.clone(), expected) { return Some(Verdict::Mismatch { observed, detail }); }
-            let div = every_type!(image_create, &el, &sh, nd, &canon);
+            {
+                let nat = native_create(el.len(), &sh, nd);
+                let ok = match (class_of(expected), &nat) { ("ok", Ok(t)) => format!("ok {}:{}", show_list(t), show_list(&el)) == expected, ("err", Err(())) => true, ("ok", _) | ("err", _) => false, _ => true };
+                if !ok { return mismatch(format!("ORACLE-DIVERGENCE native create: {:?}", nat), format!("the harness-native reference of Array::create disagrees with the model, which says `{}`", truncate(expected, 300))); }
+                CREATE_VALIDATIONS.fetch_add(1, std::sync::atomic::Ordering::Relaxed);
+            }
+            let div = every_type!(image_create, &el, &sh, nd, &canon).or_else(|| layout_types!(image_create_on, fnv(args[1]).wrapping_add(el.len() as u64), el.len() <= 3000, &el, &sh, nd, &canon));
             Some(match div { Some(d) => compare_default(format!("{d}; i64 run: {}", truncate(&obs, 300)), expected), None => compare_default(obs, expected) })
         }
         _ => None,
@@ -547,10 +902,12 @@ fn exec(op: &str, args: &[&str], expected: &str) -> Option<Verdict> {
 fn nontrivial(op: &str, args: &[&str]) -> bool {
     if op == "create" { return args[2] != "none"; }
     if op == "audit" { return false; }
+    if op == "gcreate" { return args[1] != "none"; }
+    if op == "giant" || op == "giant8" || op == "giantw" { return args[1] != "-"; }
     parse_arr_raw(args[0]).1.len() >= 2 && args[1] != "-"
 }
 
 fn main() {
-    harness_main(Spec { prop: "C07", gen, exec, nontrivial, hang_secs: 20,
+    harness_main(Spec { prop: "C07", gen, exec, nontrivial, hang_secs: 60,
         rule: "every shape rank<=4 len<=3 (+ 19 shapes with zero-length axes incl. [0,0],[0,3,0],[0,1,0,2]; unit-rich, rank 5): reshape to EVERY ordered factorization of the count into <=4 (5) axes and back (empty arrays: to every kind of empty / non-empty target), non-fitting counts, resize smaller/larger/empty, cycle_take, atleast 0..4, expand_dims at every single position and every ordered pair in -(nd+2)..nd+2, squeeze none / every axis +- / every pair, same step twice, expand-then-squeeze in both spellings, errors passed along a chain; seeded random chains (<=8 steps) that end in the original shape; create with ndmin 0..5. Sizes: big_shapes() + lengths around 256/1024/4096 (ravel, sampled factorizations and back, atleast, expand/squeeze at every position, random chains, create); resize from 28 (thorough ~90) source lengths (dividing and not dividing 256/1024/4096) to targets just above 256/512/1024/2048/4096 of rank 1-3, cycle_take up to 5000, shrinking from big sources. EVERY chain runs through the Result receiver (compared with the model) and through the plain-receiver twin of every step (compared after every step), then on the u8, i8, u64>2^53, f64(-0.0), f32(-0.0), f64 special values (bit-wise), bool, String, char images on both receivers. Tag arrays. PART 2: expand_dims with 3..5 axes (every 3-subset of the result positions in every order, sampled 4/5-subsets, mixed spellings) alone and followed by the squeeze of those positions (unsorted, mixed spellings); squeeze lists of 3..5 axes; create with ndmin 0..9,12,16 on ranks 0..6; ranks 6..8; every length 1..300 (reshape, resize, cycle_take, expand/squeeze); huge: resize from 14 small source lengths to targets of 20 000..140 000 elements (above and at 65 536) and reshape / ravel / expand / squeeze of huge_shapes() through the model; resize / cycle_take FROM sources of 4 100..140 000 elements (`hchain`) against the harness-native reference out[i] = in[i mod len], which is validated against the model on every smaller resize / cycle_take / reshape / ravel chain of the run (`audit` demands >= 1000 validations); hidden state: `aba` = two chains on a fresh thread A B A, then on another fresh thread B A B, over shape pairs colliding under weak polynomial hashes (multipliers 31,33,37,131,257), equal counts, and a refused call followed by a valid one; for a third of the chain lines the previous line is re-executed and must repeat its answer. non-trivial = >=2 elements and a non-empty chain" });
 }
